@@ -14,6 +14,12 @@ CHECKS = {
          'operators used by the trace spec are model-checked in ContainersMC. Trace validation within stated bounds, not '
          'exhaustive over all programs.',
          'TLA+ trace validation of real edit histories (TLC) + model-checked container spec'),
+ 'C02': ('model_checking', '4-C02',
+         'Edit histories are executed in lock-step on trees that differ only in the read-only queries made before each '
+         'edit; after every step ~80 public queries on every node are answered by each edited tree and by a tree built '
+         'from scratch from its source, and TLC validates ObsEq, Links, ViewsFollow, HistoryIndependent, RootIdentity '
+         '(ObsLaws.tla). Trace validation within the stated bounds.',
+         'TLA+ trace validation of lock-step observation histories (edited tree vs fresh tree)'),
  'C03': ('model_checking', '4-C03',
          'ContainersMC.tla is model-checked exhaustively within its constants (every entry point = Python list '
          'semantics); every recorded edit is validated by TLC: SliceLaw (field = old[:s]+new+old[t:] computed by the '
